@@ -1,4 +1,4 @@
-package main
+package p2pexec
 
 // Facts re-extracted from /repo's source on every run (go/ast): which functions contain a deferred
 // recover, and whether the loop bodies replicated by the verif hooks still equal the production ones.
@@ -110,7 +110,16 @@ func (p *pkgAST) funcBody(fn string) (string, bool) {
 	return p.render(fd.Body.List), true
 }
 
-func emitFacts(emit func(op, res string)) {
+// EmitSameBodyFacts emits only the `fact same …` lines (do the stepped loop bodies equal the production ones).
+func EmitSameBodyFacts(emit func(op, res string)) {
+	EmitFacts(func(op, res string) {
+		if len(op) > 10 && op[:10] == "fact same " {
+			emit(op, res)
+		}
+	})
+}
+
+func EmitFacts(emit func(op, res string)) {
 	b := parsePkg("system/p2p/dht/protocol/broadcast")
 	pr := parsePkg("system/p2p/dht/protocol")
 	dl := parsePkg("system/p2p/dht/protocol/download")
